@@ -1112,6 +1112,10 @@ class Interp:
     def iter_next(self, st, itp, depth=0, stack=()):
         O = self.OPTION
         it = self.deref(st, itp) if itp[0] == "ref" else itp
+        # `into_iter` of something that already is an iterator adaptor is that adaptor
+        while it[0] == "op" and it[1] == "into_iter" and it[2] and it[2][0][0] == "call" and \
+                __import__("norm").short_callee(it[2][0][1]).split("::")[-1] in ("map", "copied", "cloned", "enumerate", "rev", "chain", "filter", "filter_map"):
+            it = it[2][0]
         # a lazy adaptor draws from the iterator underneath: next(map(X, f)) = next(X).map(f); copied / cloned = identity
         from norm import short_callee as _sc
         sc_ = _sc(it[1]) if it[0] == "call" else ""
